@@ -5,6 +5,7 @@ snapshots that reached the task along satisfied transitions.
 import OrqModel.Proofs.Ancestry
 import OrqModel.Proofs.Inherit
 import OrqModel.Proofs.OfferCtx
+import OrqModel.Proofs.Published
 import OrqModel.Properties.Truth
 import OrqModel.Properties.History
 
@@ -236,6 +237,105 @@ theorem C06_offer_context_from_ancestors (spec : WfSpec) (parentCtx inputs : Val
   intro i hi
   rw [← hid]
   exact hca i hi
+
+/-! ### what a predecessor published on the way is listed -/
+
+theorem init_pl (spec : WfSpec) (parentCtx inputs : Val.Dict) : PL (init E spec parentCtx inputs) := by
+  unfold init
+  dsimp only
+  have h0 : PL ({ spec := spec, graph := compose spec, inputs := inputs, parentCtx := parentCtx } : Cond) :=
+    ⟨fun x hx => (by cases hx), fun r hr => (by cases hr), fun m hm => (by cases hm)⟩
+  have h1 := PL.uniform (m := (do logError "ExpressionEvaluationException"; failOnError : M Unit))
+    (by nxa_walk [failOnError_nxa, logError_nxa _ _ _ _]) (by ext_walk [failOnError_ext])
+    (by prev_walk [failOnError_prev, logError_prev _ _ _ _]) (by log_walk [failOnError_log]) _ h0
+  have hroots : ∀ (c : Cond) (ctx : Val.Dict) (roots : List String), PL c →
+      PL { c with st := { c.st with
+        contexts := c.st.contexts ++ [ctx],
+        routes := c.st.routes ++ [[]],
+        staged := c.st.staged ++ roots.map fun n =>
+          ({ id := n, route := 0, ctxsIn := [0], ready := true } : Staged) } } := by
+    intro c ctx roots hj
+    refine ⟨?_, ?_, ?_⟩
+    · intro x hx
+      rcases List.mem_append.mp hx with h | h
+      · exact PubOk.same (c := c) rfl (hj.staged x h)
+      · obtain ⟨n, _, e⟩ := List.mem_map.mp h
+        rw [← e]
+        intro p hp
+        cases hp
+    · intro r hr
+      exact PubOk.same (c := c) rfl (hj.recs r hr)
+    · intro m hm
+      obtain ⟨q, hq, hmem⟩ := hj.logged m hm
+      exact ⟨q, hq, hmem⟩
+  repeat' split
+  all_goals first
+    | exact h1 | exact h0 | exact hroots _ _ _ h1 | exact hroots _ _ _ h0
+
+theorem init_inv3 (spec : WfSpec) (parentCtx inputs : Val.Dict) : Inv3 (init E spec parentCtx inputs) :=
+  ⟨init_inv2 E spec parentCtx inputs, init_in E spec parentCtx inputs, init_pl E spec parentCtx inputs⟩
+
+theorem runOp_inv3 (op : Op) (c : Cond) (hop : op.notRetryEvent) (hi : Inv3 c) : Inv3 (runOp E op c) := by
+  cases op with
+  | req s =>
+    exact (JI3.of_rel (requestStatus_dec s) (requestStatus_tk s) (requestStatus_g s) (requestStatus_nxa s)
+      (requestStatus_prev s) (requestStatus_log s)).run c hi
+  | next =>
+    exact (JI3.of_rel (getNextTasks_dec E) (getNextTasks_tk E) (getNextTasks_g E) (getNextTasks_nxa E)
+      (getNextTasks_prev E) (getNextTasks_log E)).run c hi
+  | render =>
+    exact (JI3.of_rel (renderOutput_dec E) (renderOutput_tk E) (renderOutput_g E) (renderOutput_nxa E)
+      (renderOutput_prev E) (renderOutput_log E)).run c hi
+  | rerun reqs => exact (requestRerun_ji3 E reqs).run c hi
+  | report k ev =>
+    apply updateTaskStateAux_inv3 E 3 k ev c hi
+    intro hev
+    subst hev
+    exact hop.elim
+
+theorem runOps_inv3 (ops : List Op) (c : Cond) (hops : ∀ op ∈ ops, op.notRetryEvent) (hi : Inv3 c) :
+    Inv3 (runOps E ops c) := by
+  induction ops generalizing c with
+  | nil => exact hi
+  | cons op ops ih =>
+    rw [runOps_cons]
+    exact ih (runOp E op c) (fun o ho => hops o (List.mem_cons_of_mem _ ho))
+      (runOp_inv3 E op c (hops op List.mem_cons_self) hi)
+
+/-- **C06**, completeness for named predecessors: along every history, whatever a predecessor
+    named by a staged entry or record of task `t` published on its transition into `t` is among
+    the snapshots that entry lists; and the publication log only records transitions that were
+    decided true -/
+theorem C06_published_snapshots_listed (spec : WfSpec) (parentCtx inputs : Val.Dict) (ops : List Op)
+    (hops : ∀ op ∈ ops, op.notRetryEvent) :
+    PL (runOps E ops (init E spec parentCtx inputs)) :=
+  (runOps_inv3 E ops _ hops (init_inv3 E spec parentCtx inputs)).pl
+
+/-- **C06**, the whole chain for what is offered at any point of any history: the offered task is
+    rendered from exactly the snapshots its staged entry lists; these contain the initial context,
+    everything each named predecessor was rendered from and whatever it published on its
+    transition into the task; and they contain nothing that did not reach the task along a
+    satisfied transition -/
+theorem C06_offer_context_exact (spec : WfSpec) (parentCtx inputs : Val.Dict) (ops : List Op)
+    (hops : ∀ op ∈ ops, op.notRetryEvent) (offers : List Offer) (c' : Cond)
+    (h : getNextTasks E (runOps E ops (init E spec parentCtx inputs)) = (.ok offers, c')) :
+    ∀ o ∈ offers, ∃ sx ∈ (runOps E ops (init E spec parentCtx inputs)).st.staged,
+      sx.id = o.id ∧ sx.route = o.route ∧
+      (runOps E ops (init E spec parentCtx inputs)).st.taskContext sx.ctxsIn = .ok o.ctx ∧
+      0 ∈ sx.ctxsIn ∧
+      (∀ p ∈ sx.prev, ∃ q, (runOps E ops (init E spec parentCtx inputs)).st.sequence[p.2]? = some q ∧
+        ∀ i ∈ q.ctxsIn, i ∈ sx.ctxsIn) ∧
+      (∀ p ∈ sx.prev, ∀ i, (p.2, ((o.id, p.1.2) : TransId), i) ∈ (runOps E ops (init E spec parentCtx inputs)).st.pubLog →
+        i ∈ sx.ctxsIn) ∧
+      (∀ i ∈ sx.ctxsIn, i = 0 ∨ Via (runOps E ops (init E spec parentCtx inputs)) o.id i) := by
+  intro o ho
+  obtain ⟨sx, hmem, hid, hroute, hctx, h0, hvia, hinh⟩ :=
+    C06_offer_context_from_ancestors E spec parentCtx inputs ops hops offers c' h o ho
+  have hpl := (C06_published_snapshots_listed E spec parentCtx inputs ops hops).staged sx hmem
+  refine ⟨sx, hmem, hid, hroute, hctx, h0, hinh, ?_, hvia⟩
+  intro p hp i hi
+  rw [← hid] at hi
+  exact hpl p hp i hi
 
 /-- non-vacuity: a state with a published snapshot reaching a staged task -/
 def exampleStateCA : Cond where
